@@ -10,3 +10,20 @@ class PlainFormatter(logging.Formatter):
 
 def make(fmt=None, datefmt=None, style="%", **kw):
     return logging.Formatter(fmt, datefmt, style=style, **kw)
+
+
+class HookFormatter(logging.Formatter):
+    """A formatter class of the application's own that does something of
+    its own when it is created - here: whatever HOOK says (the harness
+    makes it call another logger section's factory)."""
+    HOOK = [None]
+    busy = [False]
+
+    def __init__(self, *a, **kw):
+        logging.Formatter.__init__(self, *a, **kw)
+        if HookFormatter.HOOK[0] is not None and not HookFormatter.busy[0]:
+            HookFormatter.busy[0] = True
+            try:
+                HookFormatter.HOOK[0]()
+            finally:
+                HookFormatter.busy[0] = False
